@@ -66,15 +66,18 @@ MANIFEST = {
     "level_text": ("Machine-checked proof (Coq) that the patch application of `yr fix warnings`, as modelled from "
                    "cli/src/commands/fix.rs (sort key, truncation point and slicing loop re-read from the source on every run), applies "
                    "every list of patches that is pairwise disjoint and inside the text exactly as the reference splice does, for all "
-                   "texts and patch lists, and that it damages the file for overlapping patches (refuted claim with a concrete witness); "
+                   "texts and patch lists; whether it can damage the file depends on a fact re-read from the source: without the guard that skips "
+                   "overlapping patches the claim is refuted with a concrete witness, with the guard (repaired fix.rs) it is proved that every "
+                   "patch list on every text yields a complete file equal to the splice of the patches that are kept; "
                    "and that the text literal offered for a hex pattern is tokenized as one string literal whose unescaped value is the "
                    "original byte string, for all byte strings. The model is compared with the real `yr fix warnings` binary on "
                    "temporary copies; on generated sources the patches attached to warnings are checked for bounds, token boundaries and "
                    "disjointness, applied, recompiled and the scan results of original and fixed rules compared."),
     "level_note": ("Partial: equivalence of the individual rewrites (bool==0/1, `0 of`->`none of`, merged jumps) is evaluated by "
-                   "scanning, not proved (Fix/Rewrites.v of the design is not built). Known findings on the unchanged tree: "
-                   "overlapping patches for chained comparisons (file truncated + panic), `0 of` rewritten to `none of` changes "
-                   "verdicts, `module.func() == 0` fix drops the module prefix, case-constraint fix re-quotes an unescaped constant. "
+                   "scanning, not proved (Fix/Rewrites.v of the design is not built). Known findings: the compiler still attaches "
+                   "overlapping patches to chained comparisons (since 84ef5faa the tool skips the second one instead of destroying the "
+                   "file). Repaired: file truncation + panic on overlapping patches, `0 of` evaluated as always true (its `none of` fix changed verdicts), "
+                   "`module.func() == 0` fix dropping the module prefix, case-constraint fix re-quoting an unescaped constant. "
                    "Trusted: Coq kernel, translator gen_fixapply.py, the harness, the hand-written tokenizer/string_lit model."),
     "technique": "Coq proof over a model with source-generated facts + differential correspondence against the built CLI (vm_compute) + property evaluation on the implementation",
     "design_ref": "DESIGN.md section 4, C20",
